@@ -40,6 +40,7 @@ import (
 	"github.com/go-chi/chi/v5"
 	"github.com/smallstep/nosql"
 	"go.step.sm/crypto/jose"
+	"go.step.sm/crypto/x509util"
 
 	"github.com/smallstep/certificates/acme"
 	acmeapi "github.com/smallstep/certificates/acme/api"
@@ -47,18 +48,21 @@ import (
 	"github.com/smallstep/certificates/authority"
 	"github.com/smallstep/certificates/authority/provisioner"
 	c "verif/harness/common"
+	"verif/harness/cmd/c12/acmeenv"
 	"verif/harness/fixture"
 )
 
 // ---------- case ----------
 
 type Op struct {
-	K    string   // n r a o f l
+	K    string   // n r t a o f l
 	Acct int      // requesting account (0/1)
 	Obj  int      // challenge / authz / order index, or url account for l
 	Now  int      // virtual seconds since the start of the history
 	IDs  []string // n: identifiers "dns:a.example.com", "ip:10.0.0.1"
-	How  string   // r: ok | connerr | status | mismatch | dberr
+	How  string   // r: ok | connerr | status | mismatch | dberr; t: ok | badsig | wrongserial
+	Az   int      `json:",omitempty"` // t: authorization named in the request URL
+	Key  int      `json:",omitempty"` // f: CSR key number (0 = software key, 1/2 = the attestable keys); t: attested key (1/2)
 	CSR  string   // f: match | extra | missing | weakkey
 	Fail bool     // f: the final UpdateOrder fails
 	// storage fault for the duration of this request: every update write of challenge ("c"),
@@ -67,7 +71,11 @@ type Op struct {
 	DenyObj int    `json:",omitempty"`
 }
 
-type Case struct{ Ops []Op }
+type Case struct {
+	Ops []Op
+	// evaluate C13's predicate on every issued certificate as well (stage `issued` of C13: -c13)
+	Names bool `json:",omitempty"`
+}
 
 const lifetime = 86400
 
@@ -84,8 +92,18 @@ var (
 
 func setup() error {
 	var err error
+	if err = initAttest(); err != nil {
+		return err
+	}
+	wireOpts, err := initWire()
+	if err != nil {
+		return err
+	}
 	ca, err = fixture.New(fixture.Opts{NoDB: true, Provisioners: provisioner.List{
-		&provisioner.ACME{Type: "ACME", Name: "acme"},
+		&provisioner.ACME{Type: "ACME", Name: "acme",
+			Challenges: []provisioner.ACMEChallenge{provisioner.HTTP_01, provisioner.DNS_01, provisioner.TLS_ALPN_01, provisioner.DEVICE_ATTEST_01,
+				provisioner.WIREOIDC_01, provisioner.WIREDPOP_01},
+			AttestationFormats: []provisioner.ACMEAttestationFormat{provisioner.STEP}, AttestationRoots: attRootPEM(), Options: wireOpts},
 	}})
 	if err != nil {
 		return err
@@ -99,10 +117,11 @@ func setup() error {
 		return fmt.Errorf("provisioner acme is %T", p)
 	}
 	for i := range keys {
-		k, err := jose.GenerateJWK("EC", "P-256", "ES256", "sig", "", 0)
+		k, err := genKey()
 		if err != nil {
 			return err
 		}
+		privKeys[i] = k
 		pub := k.Public()
 		keys[i] = &pub
 	}
@@ -198,6 +217,17 @@ type world struct {
 	azCh    [][]int
 	azExp   []int
 	faulty  bool // a storage fault was injected earlier in this history
+	// challenges for which a successful device-attest-01 response was sent through the URL of an
+	// authorization they do not belong to (D15)
+	foreignAttest map[int]bool
+	// fpSource[authz] = the challenge whose attest request stored the fingerprint now on that
+	// authorization, fpKey[authz] = the attested key number it is about
+	fpSource map[int]int
+	fpKey    map[int]int
+	// challenges for which the client's proof was in place when a response was sent and the server
+	// answered "valid" (what "the identifier was validated" means, seen from outside)
+	proved map[int]bool
+	names  bool
 }
 
 var errTick = errors.New("wall clock second changed during a request")
@@ -297,6 +327,11 @@ func errResp(kind string, body []byte) string {
 		return "badcsr"
 	case "serverInternal":
 		return "ise"
+	case "rejectedIdentifier":
+		if kind == "f" {
+			return "refused"
+		}
+		return "err:rejectedIdentifier"
 	case "malformed":
 		if kind == "n" {
 			return "malformed"
@@ -309,7 +344,7 @@ func errResp(kind string, body []byte) string {
 	return "err:" + p.Type
 }
 
-func (w *world) csr(o int, how string) (*x509.CertificateRequest, []byte, error) {
+func (w *world) csr(o int, how string, keyNo int) (*x509.CertificateRequest, []byte, error) {
 	tmpl := &x509.CertificateRequest{}
 	var ids []string
 	if o >= 0 && o < len(w.ids) {
@@ -317,13 +352,18 @@ func (w *world) csr(o int, how string) (*x509.CertificateRequest, []byte, error)
 	}
 	for _, id := range ids {
 		t, v, _ := strings.Cut(id, ":")
-		if t == "ip" {
+		switch t {
+		case "ip":
 			tmpl.IPAddresses = append(tmpl.IPAddresses, net.ParseIP(v))
-		} else {
+		case "permanent-identifier", "wireapp-user", "wireapp-device":
+		default:
 			tmpl.DNSNames = append(tmpl.DNSNames, v)
 		}
 	}
 	key := csrKey
+	if keyNo >= 1 && keyNo <= len(attKeys) {
+		key = attKeys[keyNo-1]
+	}
 	switch how {
 	case "extra":
 		tmpl.DNSNames = append(tmpl.DNSNames, "extra.example.net")
@@ -333,7 +373,20 @@ func (w *world) csr(o int, how string) (*x509.CertificateRequest, []byte, error)
 		} else if len(tmpl.IPAddresses) > 0 {
 			tmpl.IPAddresses = tmpl.IPAddresses[1:]
 		}
-		tmpl.Subject = pkix.Name{CommonName: "other.example.net"}
+		hasPid := false
+		for _, id := range ids {
+			hasPid = hasPid || strings.HasPrefix(id, "permanent-identifier:")
+		}
+		if !hasPid || len(ids) == 1 {
+			// (for an attested order a foreign common name is refused BEFORE the fingerprint tests, a
+			// names mismatch after them: which answer comes first is modelled in C13; here the CSR of an
+			// attested order only ever differs in its SANs)
+			if !hasPid {
+				tmpl.Subject = pkix.Name{CommonName: "other.example.net"}
+			} else {
+				tmpl.DNSNames = append(tmpl.DNSNames, "other.example.net")
+			}
+		}
 	case "weakkey":
 		key = weakKey
 	}
@@ -365,6 +418,8 @@ func (w *world) csrOK(o int, csr *x509.CertificateRequest) bool {
 func nch(id string) int {
 	t, v, _ := strings.Cut(id, ":")
 	switch {
+	case t == "permanent-identifier", t == "wireapp-user", t == "wireapp-device":
+		return 1
 	case t == "ip":
 		return 2
 	case strings.HasPrefix(v, "*."):
@@ -444,7 +499,17 @@ func (w *world) dump(ctx context.Context) string {
 	}
 	for _, id := range w.authzs {
 		if a, err := w.db.GetAuthorization(ctx, id); err == nil {
-			az.WriteString(st(a.Status))
+			if a.Fingerprint != "" {
+				n := "?"
+				for i, f := range attFPs {
+					if f == a.Fingerprint {
+						n = fmt.Sprint(i + 1)
+					}
+				}
+				az.WriteString(strings.ToUpper(st(a.Status)) + n)
+			} else {
+				az.WriteString(st(a.Status))
+			}
 		} else {
 			az.WriteString("!")
 		}
@@ -464,7 +529,21 @@ func (w *world) dump(ctx context.Context) string {
 	if len(cs) > 0 {
 		dots = strings.Join(cs, ".")
 	}
-	return os_.String() + "/" + dots + "/" + az.String() + "/" + ch.String()
+	// the Wire token store: which orders have an OIDC / a DPoP token
+	var tk []string
+	for i, id := range w.orders {
+		if _, err := w.raw.Get([]byte("wire_acme_oidc_token"), []byte(id)); err == nil {
+			tk = append(tk, fmt.Sprintf("o%d", i))
+		}
+		if _, err := w.raw.Get([]byte("wire_acme_dpop_token"), []byte(id)); err == nil {
+			tk = append(tk, fmt.Sprintf("d%d", i))
+		}
+	}
+	out := os_.String() + "/" + dots + "/" + az.String() + "/" + ch.String()
+	if len(tk) > 0 {
+		out += "/" + strings.Join(tk, ".")
+	}
+	return out
 }
 
 // oracle evaluates the property itself on two consecutive dumps of the implementation's store
@@ -472,9 +551,60 @@ func (w *world) dump(ctx context.Context) string {
 // and the request that was sent; "" = no clause violated.
 func (w *world) oracle(op Op, csrOK bool, prev, cur string) string {
 	pf, cf := strings.Split(prev, "/"), strings.Split(cur, "/")
-	if len(pf) != 4 || len(cf) != 4 {
+	if len(pf) < 4 || len(cf) < 4 { // (a fifth field lists the stored Wire tokens)
 		return ""
 	}
+	// upper case + key number marks a stored fingerprint: strip the numbers, keep one letter per authorization
+	strip := func(x string) string {
+		var b strings.Builder
+		for _, r := range x {
+			if r < '0' || r > '9' {
+				b.WriteRune(r)
+			}
+		}
+		return b.String()
+	}
+	// fp_cause on the stored records: the fingerprint of an authorization changes only in a
+	// device-attest-01 request of the account that owns that authorization
+	marks := func(x string) []string {
+		var out []string
+		for _, r := range x {
+			if r >= '0' && r <= '9' || r == '?' {
+				if len(out) > 0 {
+					out[len(out)-1] += string(r)
+				}
+			} else {
+				out = append(out, string(r))
+			}
+		}
+		return out
+	}
+	pm, cm := marks(pf[2]), marks(cf[2])
+	for a := range cm {
+		was := ""
+		if a < len(pm) && len(pm[a]) > 1 {
+			was = pm[a][1:]
+		}
+		is := ""
+		if len(cm[a]) > 1 {
+			is = cm[a][1:]
+		}
+		if was != is {
+			owner := -1
+			for o, azs := range w.ordAz {
+				for _, x := range azs {
+					if x == a {
+						owner = w.ordAcct[o]
+					}
+				}
+			}
+			if op.K != "t" || owner != op.Acct {
+				return "VIOL:fingerprint-foreign-account"
+			}
+		}
+	}
+	cf2raw := strip(cf[2])
+	pf[2], cf[2] = strings.ToLower(strip(pf[2])), strings.ToLower(cf2raw)
 	at := func(s string, i int) byte {
 		if i < len(s) {
 			return s[i]
@@ -503,7 +633,8 @@ func (w *world) oracle(op Op, csrOK bool, prev, cur string) string {
 			ok := op.Now <= w.azExp[i]
 			has := false
 			for _, c := range w.azCh[i] {
-				has = has || at(pf[3], c) == 'v'
+				// (a Wire response validates the challenge and updates the account's orders in one request)
+				has = has || at(pf[3], c) == 'v' || (op.K == "w" && at(cf[3], c) == 'v')
 			}
 			if !ok || !has {
 				return "VIOL:authz-valid-cause"
@@ -532,12 +663,158 @@ func (w *world) oracle(op Op, csrOK bool, prev, cur string) string {
 				allValid && op.Now <= w.ordExp[i] && (was == 'r' || was == 'p') && grew) {
 				return "VIOL:order-valid-cause"
 			}
+			// C13 end to end: a certificate is issued only when every identifier of the order was validated:
+			// each of the order's authorizations has a challenge whose proof was in place and accepted
+			for _, a := range w.ordAz[i] {
+				okAz := false
+				if a < len(w.azCh) {
+					for _, ch := range w.azCh[a] {
+						okAz = okAz || w.proved[ch]
+					}
+				}
+				if !okAz {
+					return "VIOL:certificate-for-unvalidated-identifier"
+				}
+			}
+			if w.names {
+				if v := w.certNames(i); v != "" {
+					return v
+				}
+			}
+			// C13's attested clause, end to end: an order with a permanent identifier is finalized only
+			// with the key that was attested in a response to one of ITS OWN challenges
+			hasPid := false
+			for _, id := range w.ids[i] {
+				hasPid = hasPid || strings.HasPrefix(id, "permanent-identifier:")
+			}
+			if hasPid {
+				first := -1
+				for _, a := range w.ordAz[i] {
+					if a < len(cf2raw) && cf2raw[a] >= 'A' && cf2raw[a] <= 'Z' {
+						first = a
+						break
+					}
+				}
+				switch {
+				case first < 0:
+					return "VIOL:attested-key" // finalized although no fingerprint is recorded on the order
+				case w.fpKey[first] != op.Key:
+					return "VIOL:attested-key" // the CSR key is not the recorded one
+				default:
+					own := false
+					for _, ch := range w.azCh[first] {
+						own = own || ch == w.fpSource[first]
+					}
+					if !own {
+						// the recorded key was attested in a response to ANOTHER challenge of the account,
+						// sent through this authorization's URL (what is left of D15)
+						return "VIOL:attested-key-swapped"
+					}
+				}
+			}
 		} else if grew && !(op.K == "f" && op.Obj == i && (op.Fail || (op.Deny == "o" && op.DenyObj == i))) {
 			return "VIOL:certificate-without-transition"
 		}
 		if !w.faulty && cnt(cc, i) != "0" && cnt(cc, i) != "1" {
 			return "VIOL:certificates-per-order"
 		}
+	}
+	return ""
+}
+
+// certNames is C13's predicate on the issued certificate itself: every name the leaf carries (DNS,
+// IP, permanent identifier, common name) is the value one of the order's authorizations was
+// created for (what its challenges validated; `*.x` for a dns authorization flagged wildcard), and
+// every authorization's value is in the leaf; no e-mail or URI names.
+func (w *world) certNames(i int) string {
+	bg := context.Background()
+	o, err := w.db.GetOrder(bg, w.orders[i])
+	if err != nil || o.CertificateID == "" {
+		return "VIOL:certificate-unreadable"
+	}
+	crt, err := w.db.GetCertificate(bg, o.CertificateID)
+	if err != nil || crt.Leaf == nil {
+		return "VIOL:certificate-unreadable"
+	}
+	all, err := x509util.ParseSubjectAlternativeNames(crt.Leaf)
+	if err != nil {
+		return "VIOL:certificate-unreadable"
+	}
+	type val struct{ typ, v string }
+	var have []val
+	for _, azID := range o.AuthorizationIDs {
+		az, err := w.db.GetAuthorization(bg, azID)
+		if err != nil {
+			return "VIOL:certificate-unreadable"
+		}
+		v := az.Identifier.Value
+		if az.Wildcard && az.Identifier.Type == acme.DNS {
+			v = "*." + v
+		}
+		have = append(have, val{string(az.Identifier.Type), v})
+	}
+	used := make([]bool, len(have))
+	find := func(typ string, eq func(string) bool) bool {
+		ok := false
+		for j, h := range have {
+			if h.typ == typ && eq(h.v) {
+				used[j], ok = true, true
+			}
+		}
+		return ok
+	}
+	lower := func(s string) string { // ASCII only: names are compared as DNS compares them
+		b := []byte(s)
+		for k, ch := range b {
+			if 'A' <= ch && ch <= 'Z' {
+				b[k] = ch + 32
+			}
+		}
+		return string(b)
+	}
+	for _, d := range all.DNSNames {
+		if !find("dns", func(v string) bool { return lower(v) == lower(d) }) {
+			return "VIOL:certificate-name-not-validated"
+		}
+	}
+	for _, ip := range all.IPAddresses {
+		if !find("ip", func(v string) bool { x := net.ParseIP(v); return x != nil && x.Equal(ip) }) {
+			return "VIOL:certificate-name-not-validated"
+		}
+	}
+	for _, p := range all.PermanentIdentifiers {
+		if !find("permanent-identifier", func(v string) bool { return v == p.Identifier }) {
+			if strings.HasPrefix(p.Identifier, "*.") && find("permanent-identifier", func(v string) bool { return v == p.Identifier[2:] }) {
+				return "VIOL:certificate-name-not-validated:pid-wildcard" // C13-F4
+			}
+			return "VIOL:certificate-name-not-validated"
+		}
+	}
+	if len(all.EmailAddresses)+len(all.URIs) > 0 {
+		return "VIOL:certificate-name-not-validated"
+	}
+	if cn := crt.Leaf.Subject.CommonName; cn != "" {
+		ok := false
+		for _, h := range have {
+			ok = ok || lower(h.v) == lower(cn) || (h.typ == "ip" && net.ParseIP(cn) != nil && net.ParseIP(cn).Equal(net.ParseIP(h.v)))
+		}
+		if !ok {
+			return "VIOL:certificate-name-not-validated"
+		}
+	}
+	hasPid, missing, missingPid := false, false, false
+	for j, h := range have {
+		hasPid = hasPid || h.typ == "permanent-identifier"
+		if !used[j] {
+			missing = true
+			missingPid = missingPid || h.typ == "permanent-identifier"
+		}
+	}
+	switch {
+	case missing && hasPid && !missingPid:
+		return "VIOL:validated-identifier-missing-from-certificate:mixed-attested" // C13-F2
+	case missing:
+		return "VIOL:validated-identifier-missing-from-certificate"
 	}
 	return ""
 }
@@ -566,6 +843,15 @@ func (w *world) exec(op Op, prev string) (tok, out, dump string, err error) {
 	var crashed bool
 	csrMatches := false
 	resp := ""
+	// a response is a Wire response exactly when the challenge it names is a Wire challenge
+	if (op.K == "r" || op.K == "w") && op.Obj >= 0 && op.Obj < len(w.chals) {
+		op.K = "r"
+		if isWire(w.chTyp[op.Obj]) {
+			op.K = "w"
+		}
+	} else if op.K == "w" {
+		op.K = "r"
+	}
 	switch op.K {
 	case "n":
 		ks := make([]string, len(op.IDs))
@@ -574,6 +860,9 @@ func (w *world) exec(op Op, prev string) (tok, out, dump string, err error) {
 			t, v, _ := strings.Cut(id, ":")
 			req.Identifiers = append(req.Identifiers, acme.Identifier{Type: acme.IdentifierType(t), Value: v})
 			ks[i] = fmt.Sprint(nch(id))
+			if t == "permanent-identifier" {
+				ks[i] += "a"
+			}
 		}
 		k := "-"
 		if len(ks) > 0 {
@@ -603,7 +892,91 @@ func (w *world) exec(op Op, prev string) (tok, out, dump string, err error) {
 			w.sh.failChallenge = true
 		}
 		tok = fmt.Sprintf("r:%d:%d:%d:%s", op.Acct, op.Obj, op.Now, outcome(typ, op.How))
-		code, body, crashed = call(acmeapi.GetChallenge, w.ctx(op.Acct, []byte("{}"), cl, map[string]string{"chID": id, "authzID": "az"}))
+		// the URL names the challenge's own authorization, except for device-attest-01 challenges:
+		// an `r` request stands for a response through a URL naming no authorization at all
+		azURL := "az"
+		if typ != acme.DEVICEATTEST01 {
+			for a, chs := range w.azCh {
+				for _, ch := range chs {
+					if ch == op.Obj {
+						azURL = w.authzs[a]
+					}
+				}
+			}
+		}
+		code, body, crashed = call(acmeapi.GetChallenge, w.ctx(op.Acct, []byte("{}"), cl, map[string]string{"chID": id, "authzID": azURL}))
+	case "w":
+		// response to a wire-oidc-01 / wire-dpop-01 challenge through its own authorization's URL
+		id := w.id(w.chals, op.Obj)
+		azURL := "az"
+		for a, chs := range w.azCh {
+			for _, ch := range chs {
+				if ch == op.Obj {
+					azURL = w.authzs[a]
+				}
+			}
+		}
+		payload := []byte("{}")
+		if x, err := w.db.GetChallenge(bg, id, ""); err == nil {
+			aud := w.linker.GetLink(w.ctx(op.Acct, nil, &client{}, nil), acme.ChallengeLinkType, azURL, id)
+			if p, perr := wirePayload(w.chTyp[op.Obj], op.How, op.Acct, x.Token, aud); perr == nil {
+				payload = p
+			} else {
+				return "", "", "", perr
+			}
+		}
+		out := "j"
+		switch op.How {
+		case "ok":
+			out = "s"
+		case "dberr":
+			out = "d"
+			w.sh.failChallenge = true
+		}
+		letter := "w"
+		if w.chTyp[op.Obj] == acme.WIREDPOP01 {
+			letter = "W"
+		}
+		tok = fmt.Sprintf("%s:%d:%d:%d:%s", letter, op.Acct, op.Obj, op.Now, out)
+		code, body, crashed = call(acmeapi.GetChallenge, w.ctx(op.Acct, payload, &client{how: "connerr"}, map[string]string{"chID": id, "authzID": azURL}))
+	case "t":
+		// device-attest-01 response; the URL names authorization op.Az (the handler does not check
+		// that the challenge belongs to it)
+		id := w.id(w.chals, op.Obj)
+		var payload []byte
+		akey := op.Key
+		if akey < 1 || akey > len(attKeys) {
+			akey = 1
+		}
+		if op.Obj >= 0 && op.Obj < len(w.chals) {
+			if x, err := w.db.GetChallenge(bg, id, ""); err == nil {
+				ka, _ := acme.KeyAuthorization(x.Token, w.accs[op.Acct].Key)
+				payload, _ = attestPayload(ka, x.Value, op.How, attKeys[akey-1])
+			}
+		}
+		if payload == nil {
+			payload = []byte("{}")
+		}
+		out := "j"
+		if op.How == "ok" {
+			out = fmt.Sprintf("s%d", akey)
+		}
+		tok = fmt.Sprintf("t:%d:%d:%d:%d:%s", op.Acct, op.Obj, op.Az, op.Now, out)
+		if op.How == "ok" && op.Obj >= 0 && op.Obj < len(w.chals) {
+			own := false
+			if op.Az >= 0 && op.Az < len(w.azCh) {
+				for _, ch := range w.azCh[op.Az] {
+					own = own || ch == op.Obj
+				}
+			}
+			if !own {
+				if w.foreignAttest == nil {
+					w.foreignAttest = map[int]bool{}
+				}
+				w.foreignAttest[op.Obj] = true
+			}
+		}
+		code, body, crashed = call(acmeapi.GetChallenge, w.ctx(op.Acct, payload, &client{how: "connerr"}, map[string]string{"chID": id, "authzID": w.id(w.authzs, op.Az)}))
 	case "a":
 		tok = fmt.Sprintf("a:%d:%d:%d", op.Acct, op.Obj, op.Now)
 		code, body, crashed = call(acmeapi.GetAuthorization, w.ctx(op.Acct, nil, &client{}, map[string]string{"authzID": w.id(w.authzs, op.Obj)}))
@@ -612,13 +985,17 @@ func (w *world) exec(op Op, prev string) (tok, out, dump string, err error) {
 		code, body, crashed = call(acmeapi.GetOrder, w.ctx(op.Acct, nil, &client{}, map[string]string{"ordID": w.id(w.orders, op.Obj)}))
 	case "f":
 		how := op.CSR
-		csr, der, cerr := w.csr(op.Obj, how)
+		csr, der, cerr := w.csr(op.Obj, how, op.Key)
 		if cerr != nil {
 			return "", "", "", cerr
 		}
 		w.sh.failOrderValid = op.Fail
 		csrMatches = w.csrOK(op.Obj, csr)
-		tok = fmt.Sprintf("f:%d:%d:%d:%s%s%s", op.Acct, op.Obj, op.Now, c.B(csrMatches), c.B(how != "weakkey"), c.B(op.Fail))
+		keyNo := op.Key
+		if how == "weakkey" || keyNo < 0 || keyNo > len(attKeys) {
+			keyNo = 0
+		}
+		tok = fmt.Sprintf("f:%d:%d:%d:%d:%s%s%s", op.Acct, op.Obj, op.Now, keyNo, c.B(csrMatches), c.B(how != "weakkey"), c.B(op.Fail))
 		payload, _ := json.Marshal(map[string]string{"csr": base64.RawURLEncoding.EncodeToString(der)})
 		code, body, crashed = call(acmeapi.FinalizeOrder, w.ctx(op.Acct, payload, &client{}, map[string]string{"ordID": w.id(w.orders, op.Obj)}))
 	case "l":
@@ -643,7 +1020,7 @@ func (w *world) exec(op Op, prev string) (tok, out, dump string, err error) {
 	default:
 		return "", "", "", fmt.Errorf("unknown op %q", op.K)
 	}
-	if (op.K == "f" && op.Fail) || (op.K == "r" && op.How == "dberr") || op.Deny != "" {
+	if (op.K == "f" && op.Fail) || ((op.K == "r" || op.K == "w") && op.How == "dberr") || op.Deny != "" {
 		w.faulty = true
 	}
 	w.sh.failOrderValid, w.sh.failChallenge = false, false
@@ -666,6 +1043,28 @@ func (w *world) exec(op Op, prev string) (tok, out, dump string, err error) {
 		resp = errResp(op.K, body)
 	}
 	dump = w.dump(bg)
+	if (op.K == "r" || op.K == "w" || op.K == "t") && op.How == "ok" && op.Obj >= 0 && op.Obj < len(w.chals) {
+		// (a response whose answer was 500 after the challenge had been stored valid counts too)
+		if x, err := w.db.GetChallenge(bg, w.chals[op.Obj], ""); err == nil && x.Status == acme.StatusValid && x.AccountID == w.accs[op.Acct].ID {
+			if w.proved == nil {
+				w.proved = map[int]bool{}
+			}
+			w.proved[op.Obj] = true
+		}
+	}
+	if op.K == "t" && op.How == "ok" && op.Az >= 0 && op.Az < len(w.authzs) {
+		// did this request store a fingerprint on the URL's authorization?
+		if a, err := w.db.GetAuthorization(bg, w.authzs[op.Az]); err == nil && a.Fingerprint != "" && strings.HasPrefix(resp, "ok-v") {
+			if w.fpSource == nil {
+				w.fpSource, w.fpKey = map[int]int{}, map[int]int{}
+			}
+			k := op.Key
+			if k < 1 || k > len(attKeys) {
+				k = 1
+			}
+			w.fpSource[op.Az], w.fpKey[op.Az] = op.Obj, k
+		}
+	}
 	out = resp + "/" + dump
 	if v := w.oracle(op, csrMatches, prev, dump); v != "" {
 		out += "/" + v
@@ -688,6 +1087,7 @@ func runCase(k *Case) (line, out string, err error) {
 			os.RemoveAll(dir)
 			return "", "", werr
 		}
+		w.names = k.Names
 		toks := make([]string, 0, len(k.Ops))
 		outs := make([]string, 0, len(k.Ops))
 		tick := false
@@ -727,9 +1127,12 @@ func runCase(k *Case) (line, out string, err error) {
 var idPool = []string{"dns:a.example.com", "dns:b.example.com", "dns:*.example.com", "ip:10.0.0.1", "ip:fd00::1", "dns:www.example.org"}
 
 type shadowOrder struct {
+	attest        []bool // the authorization is for a permanent identifier
+	akey          int    // the key the last attest request of this order was about
 	acct, created int
 	chals         [][]int // challenge indices per authorization
 	done          []bool  // a successful response was sent for the authorization
+	wire          bool    // a Wire order (one wireapp-user and one wireapp-device identifier)
 }
 
 func genCase(r *c.Rng) *Case {
@@ -773,9 +1176,24 @@ func genCase(r *c.Rng) *Case {
 		}
 		var ids []string
 		so := shadowOrder{acct: acct, created: now}
+		pidOrder := r.Chance(1, 6)
+		var wids []string
+		if !pidOrder && cnt > 0 && r.Chance(1, 6) {
+			wids, so.wire, cnt = wireIDs(), true, 2
+		}
 		for i := 0; i < cnt; i++ {
 			id := c.Pick(r, idPool)
+			if so.wire {
+				id = wids[i]
+			}
+			if pidOrder && i == 0 {
+				id = c.Pick(r, []string{"permanent-identifier:1234567", "permanent-identifier:42"})
+				if r.Chance(2, 3) {
+					cnt = 1 // mostly the permanent identifier alone
+				}
+			}
 			ids = append(ids, id)
+			so.attest = append(so.attest, strings.HasPrefix(id, "permanent-identifier:"))
 			var chs []int
 			for j := 0; j < nch(id); j++ {
 				chs = append(chs, nchal)
@@ -830,11 +1248,42 @@ func genCase(r *c.Rng) *Case {
 					break
 				}
 			}
-			if next >= 0 {
+			hasPid := false
+			for _, a := range so.attest {
+				hasPid = hasPid || a
+			}
+			key := 0
+			if hasPid && r.Chance(5, 6) {
+				key = so.akey
+			} else if hasPid {
+				key = r.Intn(3)
+			}
+			switch {
+			case next >= 0 && so.attest[next]:
+				so.done[next] = true
+				az := firstAzOf(orders, oi) + next
+				if r.Chance(1, 5) { // the URL names some other authorization
+					az = r.Intn(nauthz + 1)
+				}
+				how := "ok"
+				if r.Chance(1, 6) {
+					how = c.Pick(r, []string{"badsig", "wrongserial"})
+					so.done[next] = false
+				}
+				orders[oi].akey = 1 + r.Intn(2)
+				if r.Chance(3, 4) {
+					orders[oi].akey = 1
+				}
+				k.Ops = append(k.Ops, deny(Op{K: "t", Acct: so.acct, Obj: so.chals[next][0], Az: az, Key: orders[oi].akey, Now: now, How: how}, so, oi, firstAzOf(orders, oi)))
+			case next >= 0:
 				so.done[next] = true
 				k.Ops = append(k.Ops, Op{K: "r", Acct: so.acct, Obj: so.chals[next][0], Now: now, How: "ok"})
-			} else {
-				k.Ops = append(k.Ops, deny(Op{K: "f", Acct: so.acct, Obj: oi, Now: now, CSR: "match", Fail: fault && r.Chance(1, 6)}, so, oi, firstAzOf(orders, oi)))
+			case so.wire:
+				// (a ready Wire order is never finalized here: whether the token store has the two tokens
+				// under THIS order is not modelled; the names of a Wire certificate are C13's)
+				k.Ops = append(k.Ops, deny(Op{K: "o", Acct: so.acct, Obj: oi, Now: now}, so, oi, firstAzOf(orders, oi)))
+			default:
+				k.Ops = append(k.Ops, deny(Op{K: "f", Acct: so.acct, Obj: oi, Now: now, CSR: "match", Key: key, Fail: fault && r.Chance(1, 6)}, so, oi, firstAzOf(orders, oi)))
 			}
 			continue
 		}
@@ -891,6 +1340,10 @@ func genCase(r *c.Rng) *Case {
 			if r.Chance(1, 30) {
 				o = len(orders) + r.Intn(2)
 			}
+			if so.wire && o == oi { // see above: respond once more instead
+				k.Ops = append(k.Ops, deny(Op{K: "w", Acct: so.acct, Obj: c.Pick(r, c.Pick(r, so.chals)), Now: now, How: c.Pick(r, []string{"ok", "ok", "mismatch", "status", "connerr"})}, so, oi, firstAzOf(orders, oi)))
+				break
+			}
 			k.Ops = append(k.Ops, deny(Op{K: "f", Acct: pickAcct(so.acct), Obj: o, Now: now, CSR: how, Fail: fault && r.Chance(1, 4)}, so, oi, firstAzOf(orders, oi)))
 		case 19:
 			acct := so.acct
@@ -918,12 +1371,41 @@ func corner() []*Case {
 		{Ops: []Op{{K: "n", IDs: []string{"dns:a.example.com"}}, {K: "r", Obj: 1, Now: 1, How: "mismatch"}, {K: "r", Obj: 1, Now: 2, How: "ok"}, {K: "a", Now: 3}, ok(0, 4), {K: "a", Now: 5}, {K: "o", Now: 6}}},
 		{Ops: []Op{{K: "n", IDs: []string{"dns:a.example.com"}}, ok(0, 1), {K: "f", Now: 2, CSR: "extra"}, {K: "f", Now: 3, CSR: "weakkey"}, {K: "f", Acct: 1, Now: 4, CSR: "match"},
 			{K: "f", Now: 5, CSR: "match", Fail: true}, {K: "o", Now: 6}, {K: "f", Now: 7, CSR: "match"}}},
+		// device-attest-01: honest run; response through the URL of a foreign authorization (the
+		// fingerprint lands there, the order is then finalized with a key that was never attested: D15);
+		// wrong key refused when the fingerprint is where it belongs; failing attestations; plain `r`
+		{Ops: []Op{{K: "n", IDs: []string{"permanent-identifier:1234567"}}, {K: "r", Obj: 0, Now: 1, How: "ok"}, {K: "t", Obj: 0, Az: 0, Now: 2, How: "badsig"},
+			{K: "n", Now: 3, IDs: []string{"permanent-identifier:42"}}, {K: "t", Obj: 1, Az: 1, Now: 4, How: "wrongserial"}, {K: "o", Obj: 1, Now: 5}}},
+		{Ops: []Op{{K: "n", IDs: []string{"permanent-identifier:1234567"}}, {K: "t", Obj: 0, Az: 0, Now: 1, How: "ok"}, {K: "o", Now: 2},
+			{K: "f", Now: 3, CSR: "match"}, {K: "f", Now: 4, CSR: "match", Key: 2}, {K: "f", Now: 4, CSR: "match", Key: 1}, {K: "t", Obj: 0, Az: 0, Now: 5, How: "ok"}}},
+		{Ops: []Op{{K: "n", IDs: []string{"permanent-identifier:1234567"}}, {K: "n", Acct: 1, Now: 1, IDs: []string{"dns:a.example.com"}},
+			{K: "t", Obj: 0, Az: 1, Now: 2, How: "ok"}, {K: "a", Obj: 0, Now: 3}, {K: "a", Acct: 1, Obj: 1, Now: 3}, {K: "o", Now: 4}, {K: "f", Now: 5, CSR: "match"}}},
+		{Ops: []Op{{K: "n", IDs: []string{"permanent-identifier:42", "dns:a.example.com"}}, {K: "t", Obj: 0, Az: 7, Now: 1, How: "ok"}, {K: "t", Obj: 0, Az: 0, Now: 2, How: "ok", Deny: "a", DenyObj: 0},
+			{K: "t", Obj: 0, Az: 0, Now: 3, How: "ok", Deny: "c", DenyObj: 0}, {K: "t", Obj: 0, Az: 0, Now: 4, How: "ok"}, {K: "r", Obj: 2, Now: 5, How: "ok"}, {K: "f", Now: 6, CSR: "match", Key: 1}}},
+		// what is left of D15: two attested orders of one account, each attestation sent through the
+		// other order's authorization URL: order 0 is then finalized with the key attested for order 1's identifier
+		{Ops: []Op{{K: "n", IDs: []string{"permanent-identifier:1234567"}}, {K: "n", Now: 1, IDs: []string{"permanent-identifier:42"}},
+			{K: "t", Obj: 0, Az: 1, Key: 1, Now: 2, How: "ok"}, {K: "t", Obj: 1, Az: 0, Key: 2, Now: 3, How: "ok"}, {K: "o", Now: 4}, {K: "o", Obj: 1, Now: 4},
+			{K: "f", Now: 5, CSR: "match", Key: 1}, {K: "f", Now: 6, CSR: "match", Key: 2}, {K: "f", Obj: 1, Now: 7, CSR: "match", Key: 1}}},
+		// second shape: the key recorded on an already valid authorization is replaced by an attestation for
+		// another challenge of the account sent through its URL (theorem fp_overwrite_valid)
+		{Ops: []Op{{K: "n", IDs: []string{"permanent-identifier:1234567"}}, {K: "t", Obj: 0, Az: 0, Key: 1, Now: 1, How: "ok"}, {K: "o", Now: 2},
+			{K: "n", Now: 3, IDs: []string{"permanent-identifier:42"}}, {K: "t", Obj: 1, Az: 0, Key: 2, Now: 4, How: "ok"}, {K: "f", Now: 5, CSR: "match", Key: 1}, {K: "f", Now: 6, CSR: "match", Key: 2}}},
 		// lost authorization write while the ORDER is evaluated (poll, finalize, orders list, new-order refresh)
 		{Ops: []Op{{K: "n", IDs: []string{"dns:a.example.com", "dns:b.example.com"}}, ok(0, 1), ok(3, 2), {K: "o", Now: 3, Deny: "a", DenyObj: 1},
 			{K: "f", Now: 4, CSR: "match", Deny: "a", DenyObj: 1}, {K: "l", Now: 5, Deny: "a", DenyObj: 0}, {K: "n", Now: 6, IDs: []string{"ip:10.0.0.1"}, Deny: "a", DenyObj: 1},
 			{K: "a", Obj: 1, Now: 7, Deny: "a", DenyObj: 1}, {K: "o", Now: lifetime + 1}, {K: "a", Obj: 1, Now: lifetime + 1}}},
 		{Ops: []Op{{K: "n", IDs: []string{"dns:a.example.com"}}, ok(0, 1), {K: "o", Now: 2, Deny: "o", DenyObj: 0}, {K: "f", Now: 3, CSR: "match", Deny: "o", DenyObj: 0},
 			{K: "o", Now: 4}, {K: "f", Now: 5, CSR: "match", Deny: "o", DenyObj: 0}, {K: "f", Now: 6, CSR: "match"}, {K: "r", Obj: 1, Now: 7, How: "mismatch", Deny: "c", DenyObj: 1}, {K: "r", Obj: 1, Now: 8, How: "connerr", Deny: "c", DenyObj: 1}}},
+		// Wire: a finished challenge is not validated again (valid then a bad token, invalid then a good one);
+		// the response that makes the second challenge valid also makes the order ready; an account whose
+		// only order has expired answers 500 after the challenge was stored valid
+		{Ops: []Op{{K: "n", IDs: wireIDs()}, {K: "w", Obj: 0, Now: 1, How: "ok"}, {K: "w", Obj: 0, Now: 2, How: "status"}, {K: "w", Obj: 0, Now: 3, How: "garbage"},
+			{K: "w", Obj: 1, Now: 4, How: "mismatch"}, {K: "w", Obj: 1, Now: 5, How: "ok"}, {K: "a", Obj: 1, Now: 6}, {K: "o", Now: 7}}},
+		{Ops: []Op{{K: "n", IDs: wireIDs()}, {K: "n", Now: 1, IDs: []string{"dns:a.example.com"}}, {K: "r", Obj: 2, Now: 2, How: "ok"}, {K: "w", Obj: 1, Now: 3, How: "ok"}, {K: "w", Obj: 0, Now: 4, How: "ok"},
+			{K: "l", Now: 5}, {K: "w", Obj: 0, Now: 6, How: "garbage"}, {K: "w", Acct: 1, Obj: 1, Now: 7, How: "ok"}}},
+		{Ops: []Op{{K: "n", IDs: wireIDs()}, {K: "w", Obj: 0, Now: lifetime + 1, How: "ok"}, {K: "w", Obj: 1, Now: lifetime + 2, How: "ok"}, {K: "o", Now: lifetime + 3}}},
+		{Ops: []Op{{K: "n", IDs: wireIDs()}, {K: "w", Obj: 0, Now: 1, How: "ok", Deny: "a", DenyObj: 0}, {K: "w", Obj: 1, Now: 2, How: "ok", Deny: "o", DenyObj: 0}, {K: "w", Obj: 1, Now: 3, How: "dberr"}, {K: "o", Now: 4}}},
 		{Ops: []Op{{K: "n", IDs: []string{"dns:*.example.com"}}, {K: "r", Obj: 0, Now: 1, How: "dberr"}, ok(0, 2), {K: "n", Now: 3, IDs: nil}, {K: "n", Acct: 1, Now: 3, IDs: []string{"ip:fd00::1"}},
 			{K: "r", Acct: 1, Obj: 0, Now: 4, How: "ok"}, {K: "l", Acct: 0, Obj: 1, Now: 5}, {K: "o", Acct: 1, Obj: 0, Now: 6}, {K: "a", Acct: 0, Obj: 1, Now: 7}}},
 	}
@@ -934,6 +1416,7 @@ func main() {
 	out := flag.String("out", "", "output file (input<TAB>impl)")
 	replay := flag.String("replay", "", "file of model input lines (case=… field) to re-run instead of generating")
 	stage := flag.String("stage", "histories", "histories | conc (interleavings of requests on one order, see conc.go)")
+	names := flag.Bool("c13", false, "stage issued of C13: also evaluate C13's predicate on every issued certificate (names of the leaf = what the order's authorizations validated); adds permanent identifiers that begin with *.")
 	probe := flag.Int("probe-concurrent-finalize", 0, "not a check stage: run N rounds of two simultaneous finalize requests on one ready order and report how many orders ended with two certificates (C19 material)")
 	flag.Parse()
 	if err := setup(); err != nil {
@@ -956,6 +1439,79 @@ func main() {
 		if data, err := os.ReadFile(*replay); err == nil && strings.HasPrefix(strings.TrimSpace(string(data)), "conc=") {
 			*stage = "conc" // ./check replays without stage arguments
 		}
+	}
+	if *stage == "sites" || (*replay != "" && func() bool {
+		data, err := os.ReadFile(*replay)
+		return err == nil && strings.HasPrefix(strings.TrimSpace(string(data)), "site=")
+	}()) {
+		if err := runSites(o); err != nil {
+			fmt.Fprintln(os.Stderr, "sites:", err)
+			os.Exit(2)
+		}
+		return
+	}
+	if *replay != "" {
+		if data, err := os.ReadFile(*replay); err == nil && strings.HasPrefix(strings.TrimSpace(string(data)), "aops=") {
+			*stage = "router"
+		}
+	}
+	if *stage == "router" {
+		var env *acmeenv.Env
+		used := 0
+		fresh := func() {
+			if env != nil {
+				env.Close()
+			}
+			var err error
+			if env, err = acmeenv.New([]acmeenv.ProvSpec{{Name: rprov}}, nil); err != nil {
+				fmt.Fprintln(os.Stderr, "acmeenv:", err)
+				os.Exit(2)
+			}
+			used = 0
+		}
+		emitR := func(k *RCase) {
+			if env == nil || used >= 40 {
+				fresh() // a new stack now and then keeps the certificate table scan short
+			}
+			used++
+			line, impl := runRouter(env, k)
+			o.Case(line, impl)
+		}
+		defer func() {
+			if env != nil {
+				env.Close()
+			}
+		}()
+		if *replay != "" {
+			data, _ := os.ReadFile(*replay)
+			for _, l := range strings.Split(string(data), "\n") {
+				i := strings.Index(l, "case=x")
+				if i < 0 {
+					continue
+				}
+				h := l[i+6:]
+				if j := strings.IndexAny(h, " \t"); j >= 0 {
+					h = h[:j]
+				}
+				js, err := hex.DecodeString(h)
+				if err != nil {
+					continue
+				}
+				var k RCase
+				if json.Unmarshal(js, &k) == nil && len(k.Ops) > 0 {
+					emitR(&k)
+				}
+			}
+			return
+		}
+		for _, k := range cornerRouter() {
+			emitR(k)
+		}
+		r := c.NewRng(c.Seed())
+		for i := 0; i < *n; i++ {
+			emitR(genRouter(r.Fork()))
+		}
+		return
 	}
 	if *stage == "conc" {
 		emitC := func(k *ConcCase) {
@@ -1032,11 +1588,41 @@ func main() {
 		return
 	}
 	for _, k := range corner() {
+		k.Names = *names
 		emit(k)
+	}
+	if *names {
+		for _, k := range cornerNames() {
+			emit(k)
+		}
 	}
 	r := c.NewRng(c.Seed())
 	for i := 0; i < *n; i++ {
-		emit(genCase(r.Fork()))
+		k := genCase(r.Fork())
+		if *names {
+			k.Names = true
+			// C13-F4 material: a permanent identifier that begins with `*.`
+			for oi := range k.Ops {
+				for j, id := range k.Ops[oi].IDs {
+					if strings.HasPrefix(id, "permanent-identifier:") && (i+oi+j)%4 == 0 {
+						k.Ops[oi].IDs[j] = "permanent-identifier:*." + strings.TrimPrefix(id, "permanent-identifier:")
+					}
+				}
+			}
+		}
+		emit(k)
+	}
+}
+
+// cornerNames: fixed histories for C13's end-to-end predicate
+func cornerNames() []*Case {
+	return []*Case{
+		// C13-F4: the attestation names 1234567, the certificate carries *.1234567
+		{Names: true, Ops: []Op{{K: "n", IDs: []string{"permanent-identifier:*.1234567"}}, {K: "t", Obj: 0, Az: 0, Key: 1, Now: 1, How: "ok"}, {K: "f", Now: 2, CSR: "match", Key: 1}}},
+		// C13-F2: the dns name of a mixed attested order is validated and then left out of the certificate
+		{Names: true, Ops: []Op{{K: "n", IDs: []string{"permanent-identifier:42", "dns:a.example.com"}}, {K: "t", Obj: 0, Az: 0, Key: 1, Now: 1, How: "ok"}, {K: "r", Obj: 2, Now: 2, How: "ok"}, {K: "f", Now: 3, CSR: "match", Key: 1}}},
+		{Names: true, Ops: []Op{{K: "n", IDs: []string{"dns:a.example.com", "dns:*.example.com", "ip:10.0.0.1"}}, {K: "r", Obj: 0, Now: 1, How: "ok"}, {K: "r", Obj: 3, Now: 2, How: "ok"}, {K: "r", Obj: 4, Now: 3, How: "ok"},
+			{K: "f", Now: 4, CSR: "match"}}},
 	}
 }
 
@@ -1061,7 +1647,7 @@ func probeConcurrentFinalize(rounds int) {
 		for _, op := range []Op{{K: "n", IDs: []string{"dns:a.example.com"}}, {K: "r", Obj: 0, Now: 1, How: "ok"}, {K: "o", Now: 2}} {
 			_, _, prev, _ = w.exec(op, prev)
 		}
-		_, der, _ := w.csr(0, "match")
+		_, der, _ := w.csr(0, "match", 0)
 		payload, _ := json.Marshal(map[string]string{"csr": base64.RawURLEncoding.EncodeToString(der)})
 		done := make(chan int, 2)
 		for g := 0; g < 2; g++ {
